@@ -81,14 +81,20 @@ example : MapsOK t1 ∧ PermEq t1 t2 ∧ t1 ≠ t2 := by
 def t3 : Target := { label := ⟨[], [112], [116]⟩, namedOuts := [(ka, [[111]]), (kb, [[112]])], namedSrcs := [(ka, [[120]]), (kb, [[121]])] }
 def t4 : Target := { label := ⟨[], [112], [116]⟩, namedOuts := [(kb, [[112]]), (ka, [[111]])], namedSrcs := [(kb, [[121]]), (ka, [[120]])] }
 
-/-- Every one of the five sorts is *needed*: with it removed, two encodings of the same target get different
-    pre-images (key sort inside `ruleHash`, `hashMap`, `DeclaredDependencies`, `DeclaredOutputNames`, `allBuildInputs`). -/
+def t5 : Target := { label := ⟨[], [112], [116]⟩, namedData := [(ka, [[120]]), (kb, [[121]])] }
+def t6 : Target := { label := ⟨[], [112], [116]⟩, namedData := [(kb, [[121]]), (ka, [[120]])] }
+
+/-- Every one of the six sorts is *needed*: with it removed, two encodings of the same target get different
+    pre-images (the two key sorts inside `ruleHash` — provides, named sources —, `hashMap`, `DeclaredDependencies`,
+    `DeclaredOutputNames`, and `allBuildInputs` for the runtime data). -/
 theorem C07_sort_needed :
     ruleSer { F with providesSorted := false } {} t1 ≠ ruleSer { F with providesSorted := false } {} t2 ∧
     ruleSer { F with hashMapSorted := false } {} t1 ≠ ruleSer { F with hashMapSorted := false } {} t2 ∧
     ruleSer { F with depsSorted := false } {} t1 ≠ ruleSer { F with depsSorted := false } {} t2 ∧
     ruleSer { F with outputNamesSorted := false } {} t3 ≠ ruleSer { F with outputNamesSorted := false } {} t4 ∧
-    ruleSer { F with buildInputsSorted := false } {} t3 ≠ ruleSer { F with buildInputsSorted := false } {} t4 := by decide
+    ruleSer { F with namedSrcsSorted := false } {} t3 ≠ ruleSer { F with namedSrcsSorted := false } {} t4 ∧
+    ruleSer { F with buildInputsSorted := false } { runtime := true } t5 ≠
+      ruleSer { F with buildInputsSorted := false } { runtime := true } t6 := by decide
 
 /-! ### the rule hash as a function of the *definition*: output-hash checking must not rewrite the target -/
 
